@@ -208,11 +208,18 @@ Proof. induction T using ty_ind'; cbn [frag base_of]; auto. Qed.
 Definition in_tmap (m: tmap) (T: ty) : Prop :=
   (exists k, In (k, T) (tm_present m)) \/ tm_default m = Some T.
 
+(* a character-string value holds octets its type's text codec accepts (Model/Dec.v str_octets_ok) *)
+Definition str_ok (T: ty) (v: val) : Prop :=
+  match base_of T with
+  | TStr n => match v with VOcts b => str_octets_ok n b = Some true | _ => False end
+  | _ => True
+  end.
+
 Section Good.
   Variable c : codec.
 
   Definition dv_ok (n: nat) (T: ty) (v: val) : Prop :=
-    (cdepth v <= n)%nat /\ (frag T = true -> val_of T v = true).
+    (cdepth v <= n)%nat /\ (frag T = true -> val_of T v = true) /\ str_ok T v.
 
   Definition gd (n: nat) (P: ty -> Prop) (ae sfun: bool) (d: dval) : Prop :=
     match d with
@@ -278,15 +285,27 @@ Section Good.
     | _, _ => false
     end.
 
+  Lemma create_str T proto ts v s d s' : scalar_fits T v = true ->
+    resume (create (Some T) proto ts v) s = inr (Ok d, s') ->
+    str_ok T (match base_of T, v with TBool, VInt z => VBool (negb (Z.eqb z 0)) | _, _ => v end).
+  Proof.
+    unfold create, str_ok, scalar_fits.
+    destruct (base_of T) eqn:EB; try (intros; exact I).
+    destruct v; cbn [resume]; intros Hf H; try discriminate Hf.
+    destruct (str_octets_ok n b) as [[|]|] eqn:E; cbn [resume] in H; try discriminate. reflexivity.
+  Qed.
+
   Lemma create_good n T proto ts v s d s' ae sfun :
     scalar_fits T v = true ->
     resume (create (Some T) proto ts v) s = inr (Ok d, s') -> good n (STy T) ae sfun d.
   Proof.
-    intros Hf H. apply create_inv in H. subst d. cbn [good gd]. split; [reflexivity|].
-    unfold scalar_fits in Hf. split.
+    intros Hf H. pose proof (create_str _ _ _ _ _ _ _ Hf H) as Hs.
+    apply create_inv in H. subst d. cbn [good gd]. split; [reflexivity|].
+    unfold scalar_fits in Hf. split; [|split].
     - destruct (base_of T); destruct v; cbn [cdepth]; try lia; discriminate.
     - intros _. rewrite val_of_base.
       destruct (base_of T); destruct v; try discriminate; try reflexivity; exact Hf.
+    - exact Hs.
   Qed.
 End Good.
 
@@ -514,6 +533,7 @@ Section ListOf.
     intros HB. 
     assert (Hfin: forall acc, (frag t = true -> forallb (val_of t) acc = true) -> good m (STy T) ae sfun (DV T (VList acc))).
     { intros acc Hacc. cbn [good gd]. split; [reflexivity|]. split; [cbn [cdepth]; lia|].
+      split; [|unfold str_ok; destruct HB as [HB|HB]; rewrite HB; exact I].
       intros HF. rewrite frag_base in HF. rewrite val_of_base.
       destruct HB as [HB|HB]; rewrite HB in *; cbn [frag] in HF; cbn [val_of]; apply (Hacc HF). }
     induction k as [|k IH]; intros acc s d s' Hacc H; cbn [listof_loop] in H; [dead H|].
@@ -522,7 +542,7 @@ Section ListOf.
     - cbn [resume] in H. inversion H; subst. apply Hfin. exact Hacc.
     - binv H. pose proof (Hrec _ _ _ _ _ _ _ _ (pre_none c []) Ha0) as Hg.
       destruct a0 as [Tc vc| |b| |]; try dead H.
-      + cbn [good gd] in Hg. destruct Hg as [-> [_ Hv]].
+      + cbn [good gd] in Hg. destruct Hg as [-> [_ [Hv _]]].
         apply (IH _ _ _ _ (fun HF => eq_trans (forallb_snoc _ _ _) (andb_true_intro (conj (Hacc HF) (Hv HF)))) H).
       + cbn [resume] in H. inversion H; subst. apply Hfin. exact Hacc.
       + cbn [good gd] in Hg. discriminate.
@@ -892,7 +912,8 @@ Section Record.
   Proof.
     intros HB Hs H.
     assert (Hv: forall vs', (frag T = true -> fields_ok val_of fs vs' = true) -> good m (STy T) ae sfun (DV T (VRec vs'))).
-    { intros vs' Hf. cbn [good gd]. split; [reflexivity|]. split; [cbn [cdepth]; lia|]. intros HF.
+    { intros vs' Hf. cbn [good gd]. split; [reflexivity|]. split; [cbn [cdepth]; lia|].
+      split; [|unfold str_ok; rewrite HB; destruct is_set; exact I]. intros HF.
       rewrite val_of_base, HB. destruct is_set; [rewrite val_of_set|rewrite val_of_seq]; apply (Hf HF). }
     destruct fs as [|f fs'].
     - cbn [resume] in H. inversion H; subst. apply Hv. reflexivity.
@@ -913,7 +934,7 @@ Section Record.
     intros Hfr Hmap Hsp Hg Hpos. unfold seq_position in Hpos.
     destruct is_set; cbn [negb andb orb] in *.
     - (* SET *)
-      inversion Hsp; subst sp'. cbn [good gd] in Hg. destruct Hg as [Hin [Hd Hv]].
+      inversion Hsp; subst sp'. cbn [good gd] in Hg. destruct Hg as [Hin [Hd [Hv _]]].
       assert (HfrL: forallb frag (map snd fs) = true) by (rewrite forallb_map'; exact Hfr).
       assert (HmapL: forallb map_member_ok (map snd fs) = true) by (rewrite forallb_map'; apply Hmap; reflexivity).
       destruct (place_sound _ _ _ _ _ _ HfrL HmapL Hin Hd Hv Hpos) as [Hn Hvo].
@@ -923,14 +944,14 @@ Section Record.
       unfold seq_component_spec in Hsp. fold (all_req fs) in *.
       destruct (nth_error fs idx) as [[p t]|] eqn:En; [|discriminate].
       destruct (all_req fs) eqn:Eall; cbn [orb negb] in *.
-      + inversion Hsp; subst sp'. inversion Hpos; subst i. cbn [good gd] in Hg. destruct Hg as [-> [_ Hv]].
+      + inversion Hsp; subst sp'. inversion Hpos; subst i. cbn [good gd] in Hg. destruct Hg as [-> [_ [Hv _]]].
         exists p, t. split; [exact En|]. apply Hv.
         rewrite forallb_forall in Hfr. apply (Hfr (p, t)). apply (nth_error_In _ _ En).
       + destruct (is_req p) eqn:Ep.
-        * inversion Hsp; subst sp'. inversion Hpos; subst i. cbn [good gd] in Hg. destruct Hg as [-> [_ Hv]].
+        * inversion Hsp; subst sp'. inversion Hpos; subst i. cbn [good gd] in Hg. destruct Hg as [-> [_ [Hv _]]].
           exists p, t. split; [exact En|]. apply Hv.
           rewrite forallb_forall in Hfr. apply (Hfr (p, t)). apply (nth_error_In _ _ En).
-        * inversion Hsp; subst sp'. cbn [good gd] in Hg. destruct Hg as [Hin [Hd Hv]].
+        * inversion Hsp; subst sp'. cbn [good gd] in Hg. destruct Hg as [Hin [Hd [Hv _]]].
           destruct (position_by_type (ambiguous_run (skipn idx fs)) (effective_tagset (S lf) Tc vc)) as [k|] eqn:Ek; [|discriminate].
           cbn [bind] in Hpos. inversion Hpos; subst i.
           assert (HfrL: forallb frag (ambiguous_run (skipn idx fs)) = true) by (apply ambiguous_run_forall, forallb_skipn, Hfr).
@@ -1023,8 +1044,8 @@ Section Choice.
   Proof.
     intros HB Hg H. unfold choice_place in H. destruct d0 as [Tc vc| |b| |]; try dead H.
     binv H. apply lift_inv in Ha. cbn [resume] in H. inversion H; subst. clear H.
-    cbn [good gd] in Hg. destruct Hg as [Hin [Hd Hv]].
-    cbn [good gd]. split; [reflexivity|]. split; [cbn [cdepth]; lia|].
+    cbn [good gd] in Hg. destruct Hg as [Hin [Hd [Hv _]]].
+    cbn [good gd]. split; [reflexivity|]. split; [cbn [cdepth]; lia|]. split; [|unfold str_ok; rewrite HB; exact I].
     intros HF. rewrite frag_base, HB in HF. cbn [frag] in HF. apply andb_prop in HF. destruct HF as [Hfr Hmap].
     destruct (place_sound _ _ _ _ _ _ Hfr Hmap Hin Hd Hv Ha) as [Hn Hvo].
     rewrite val_of_base, HB. apply (choice_go_intro _ _ _ _ Hn Hvo).
@@ -1256,7 +1277,23 @@ Proof.
   inversion H; subst. clear H. unfold dec_item in E.
   pose proof (call_good c fuel _ _ _ _ _ _ _ _ (pre_none c []) E) as Hg.
   cbn [good] in Hg. destruct d as [T' v| |r| |]; cbn [gd] in Hg; try discriminate; try contradiction.
-  destruct Hg as [-> [_ Hv]]. exists v. auto.
+  destruct Hg as [-> [_ [Hv _]]]. exists v. auto.
+Qed.
+
+(* whatever input is accepted under a character-string type (under any stack of tags, in primitive
+   or segmented form) yields octets that the type's text codec accepts *)
+Theorem accepted_string_codec_ok : forall c fuel T n b d tl,
+  base_of T = TStr n -> decode_with c fuel (Some T) b = Ok (d, tl) ->
+  exists bs, d = DV T (VOcts bs) /\ str_octets_ok n bs = Some true.
+Proof.
+  intros c fuel T n b d tl HB H.
+  unfold decode_with, run_complete in H.
+  destruct (resume (dec_item c fuel (Some T)) (mkStream b 0 true 0)) as [[p s]|[[d0|e] s]] eqn:E; try discriminate.
+  inversion H; subst. clear H. unfold dec_item in E.
+  pose proof (call_good c fuel _ _ _ _ _ _ _ _ (pre_none c []) E) as Hg.
+  cbn [good] in Hg. destruct d as [T' v| |r| |]; cbn [gd] in Hg; try discriminate; try contradiction.
+  destruct Hg as [-> [_ [_ Hs]]]. unfold str_ok in Hs. rewrite HB in Hs.
+  destruct v; try contradiction. eexists. split; [reflexivity|exact Hs].
 Qed.
 
 (* every codec, every type of the fragment (tagged CHOICE included) *)
